@@ -554,6 +554,19 @@ func Build(spec *MsgSpec, env *Env) (*Built, error) {
 			} else {
 				err = m.AttachHTMLTemplate(f.Name, htmlTpl, ht.HTML(f.Content), fopts...)
 			}
+		case "readseeker-pos":
+			// the caller has read a prefix of its io.ReadSeeker before attaching it (sniffed the type)
+			r := bytes.NewReader(f.Content)
+			k := int64(len(f.Content) / 3)
+			if k > 0 && k < int64(len(f.Content)) && f.Content[k-1] == '\r' && f.Content[k] == '\n' {
+				k++ // do not split a CRLF (contents in canonical form stay canonical)
+			}
+			_, _ = io.CopyN(io.Discard, r, k)
+			if embed {
+				m.EmbedReadSeeker(f.Name, r, fopts...)
+			} else {
+				m.AttachReadSeeker(f.Name, r, fopts...)
+			}
 		case "reader-pos":
 			// the caller has already consumed a prefix of its *bytes.Reader (e.g. sniffed a magic number):
 			// what is attached is the rest
